@@ -39,12 +39,23 @@ CONSTANTS Impl,        \* "py" | "c_owned" | "c_pinned"
           Verifying,   \* BOOLEAN: the lookup object is a VerifyingBase
           Plans,       \* set of plans [CallOuts -> ForeignActs]
           MaxCalls,    \* lookups per thread
-          MaxFrames    \* bound on frames ever created
+          MaxFrames,   \* bound on frames ever created
+          StartStale,  \* TRUE: a mutation of the base registry completed before
+                       \* the first call (the verifying lookup starts with
+                       \* generations that have moved)
+          VerifyOrder  \* how a verifying lookup's changed() is sequenced:
+                       \* "clear_first": drop the caches, THEN read the
+                       \*   bases' generations and record them (the pin);
+                       \* "snapshot_first": read the generations, then drop
+                       \*   the caches and record them in one piece (shipped)
 
 \* C3: code the Python _uncached_* runs AFTER it has read the data and before
 \* it returns (e.g. spec.subscribe() of a required specification, called by
 \* _subscribe): the window between computing an answer and storing it
-CallOuts == {"G", "A", "E", "B", "C1", "C3", "D", "F"}
+\* E2: reading the bases' generations AGAIN inside changed(), after _verify
+\* found them moved (base._generation may be a property, and in the Python
+\* implementation any other thread may run there)
+CallOuts == {"G", "A", "E", "E2", "B", "C1", "C3", "D", "F"}
 ForeignActs == {"none", "mutate", "raise", "nested", "nested_mutate",
                 "mutate_nested"}
 
@@ -75,7 +86,7 @@ Owns == Impl # "c_pinned"
 PcSeq(entry) ==
     LET g == IF entry = "hook" THEN <<"G">> ELSE <<>>
         a == IF entry \in {"lookup", "all"} THEN <<"A">> ELSE <<>>
-        e == IF Verifying THEN <<"E">> ELSE <<>>
+        e == IF Verifying THEN <<"E", "E2">> ELSE <<>>
     IN (IF Impl = "py" /\ entry = "hook" THEN g \o e ELSE e \o g \o a) \o
        <<"B", "C1", "C2", "C3", "D">> \o
        (IF entry = "hook" THEN <<"F">> ELSE <<>>)
@@ -89,7 +100,7 @@ NewFrame(id, entry, plan, top) ==
     [id |-> id, entry |-> entry, plan |-> plan, plan0 |-> plan,
      pc |-> PcSeq(entry)[1],
      cell |-> 0, vcell |-> 0, rd |-> 0, res |-> 0, exc |-> FALSE,
-     inv |-> chg, top |-> top, hit |-> FALSE]
+     inv |-> chg, top |-> top, hit |-> FALSE, stale |-> FALSE]
 
 (***************************************************************************)
 (* Heap operations (on explicit copies so that one step can compose them)  *)
@@ -113,6 +124,17 @@ DoLookupChanged(h) ==
                          !.owners = [r2[2] EXCEPT ![nv] = {RootOwner}],
                          !.vcur = nv, !.vgen = h.chg, !.ncell = nv + 1]
           ELSE [h EXCEPT !.cur = 0, !.alive = r2[1], !.owners = r2[2]]
+
+\* the two halves of a verifying lookup's changed()
+ClearCaches(h) ==
+    LET r1 == Release(h.alive, h.owners, h.cur, RootOwner)
+    IN [h EXCEPT !.cur = 0, !.alive = r1[1], !.owners = r1[2]]
+Snapshot(h) ==
+    LET r2 == Release(h.alive, h.owners, h.vcur, RootOwner)
+        nv == h.ncell
+    IN [h EXCEPT !.alive = [r2[1] EXCEPT ![nv] = TRUE],
+                 !.owners = [r2[2] EXCEPT ![nv] = {RootOwner}],
+                 !.vcur = nv, !.vgen = h.chg, !.ncell = nv + 1]
 
 \* changed() of the REGISTRY that was mutated, the last step of every
 \* mutator.  Non-verifying: the registry is the lookup's own (or pushes the
@@ -162,11 +184,20 @@ Segment(h0, f0) ==
       [] pc = "A" -> [h |-> h0, f |-> f0, uaf |-> FALSE]
       [] pc = "E" ->
            \* back from reading the generations: the frame continues to use
-           \* the _verify_ro it started with, then compares
+           \* the _verify_ro it started with, then compares.  If they moved,
+           \* changed() starts: with "clear_first" the caches go now
            LET bad == f0.vcell # 0 /\ ~h0.alive[f0.vcell]
                stale == h0.vgen # h0.chg \/ h0.vcur = 0
-               h1 == IF stale THEN DoLookupChanged(h0) ELSE h0
-           IN [h |-> h1, f |-> f0, uaf |-> bad]
+               h1 == IF stale /\ VerifyOrder = "clear_first"
+                        THEN ClearCaches(h0) ELSE h0
+           IN [h |-> h1, f |-> [f0 EXCEPT !.stale = stale], uaf |-> bad]
+      [] pc = "E2" ->
+           \* changed() has read the generations (whatever ran during that
+           \* read has run): record them; with "snapshot_first" the caches
+           \* are dropped in the same piece
+           LET h1 == IF VerifyOrder = "clear_first" THEN h0
+                     ELSE ClearCaches(h0)
+           IN [h |-> Snapshot(h1), f |-> f0, uaf |-> FALSE]
       [] pc = "B" ->
            \* PyDict_GetItem finished: was the key in the cache?
            LET bad == ~h0.alive[f0.cell]
@@ -260,6 +291,8 @@ Step(t) ==
                     f1 == sg.f
                     npc == IF pc = "B" /\ f1.hit
                               THEN (IF f1.entry = "hook" THEN "F" ELSE "ret")
+                              ELSE IF pc = "E" /\ ~f1.stale
+                              THEN NextPc(f1.entry, "E2")
                               ELSE NextPc(f1.entry, pc)
                     f2 == [f1 EXCEPT !.pc = npc]
                     pr == IF npc = "ret" THEN [h |-> sg.h, f |-> f2]
@@ -302,7 +335,9 @@ MChanged ==
     /\ UNCHANGED <<stack, done, uaf, fid>>
 
 Init ==
-    /\ ver = 1 /\ chg = 1 /\ cur = 0
+    /\ ver = (IF StartStale /\ Verifying THEN 2 ELSE 1)
+    /\ chg = (IF StartStale /\ Verifying THEN 2 ELSE 1)
+    /\ cur = 0
     /\ vcur = IF Verifying THEN 1 ELSE 0
     /\ vgen = 1
     /\ ncell = IF Verifying THEN 2 ELSE 1
